@@ -111,6 +111,12 @@ def run(ctx: Ctx) -> Report:
     rep = run_tree_property(ctx, __name__, SPEC)
     c = rep.extra.get("counters", {})
     rep.extra["instances"] = rep.evaluations
+    skipped = int(c.get("unencodable", 0)) + int(c.get("skipped_too_long", 0))
+    if skipped > 0.05 * max(rep.evaluations, 1) and not rep.failures:
+        from ..engine import HarnessError
+
+        raise HarnessError(f"generator health: {skipped} of {rep.evaluations} instances could not be used "
+                           f"(unencodable={c.get('unencodable', 0)}, too long={c.get('skipped_too_long', 0)}): inconclusive")
     rep.evaluations = int(c.get("cuts", 0))
     rep.nontrivial_count_override = int(c.get("distinct_inside_cuts", 0))
     return rep
